@@ -727,6 +727,14 @@ def logical_lines(text):
     return out
 
 
+_PREFIX_NUMBER = __import__("re").compile(r"\b([A-Za-z][A-Za-z0-9.\-]*?)(?:_\d+)+:")
+
+
+def _strip_prefix_numbers(obj):
+    """the JSON text of `obj` with the numbers the library appends to clashing prefixes removed (`ex_2_1:x` -> `ex:x`)"""
+    return _PREFIX_NUMBER.sub(lambda m: m.group(1) + ":", json.dumps(obj, ensure_ascii=False, sort_keys=True))
+
+
 def diff_outputs(ops, impl_outs, model_outs):
     """first index where implementation and model disagree, else None.
     Observations of containers are compared at prefix level; a difference that vanishes at URI level is an admissible
@@ -766,6 +774,12 @@ def diff_outputs(ops, impl_outs, model_outs):
             ok_members = all(set(v) <= set(mem.get(k, [])) for k, v in defined.items())
             a = {"graph": ga, "members_ok": True}
             b = {"graph": mb, "members_ok": ok_members}
+            if a != b and _strip_prefix_numbers(a) == _strip_prefix_numbers(b):
+                # the drawings differ only in which of two clashing prefixes received which number (`ex_1` / `ex_2`) while the
+                # document was unified for drawing: decided by the order in which Python iterates a set of attribute values
+                # (the admissible prefix-level divergence); every href, node, edge and cluster is the same
+                DIVERGENCES["prefix-level"] += 1
+                continue
         if ops[i]["op"] == "graph_roundtrip" and "edges" in b:
             for e in b["edges"]:
                 if e is not None:
